@@ -182,15 +182,21 @@ def loadApps (st : Store) : List App → Option (List App)
 def u64Max : Int := 18446744073709551615
 def u32Max : Int := 4294967295
 
+/-- The stored poll interval: microseconds that fit `u64`, as nanoseconds. -/
+def loadPoll : Option Int → Option Nat
+  | some t => if 0 ≤ t ∧ t ≤ u64Max then some (t.toNat * 1000) else none
+  | none => none
+
+/-- The stored failure count: a value that fits `u32`, otherwise 0. -/
+def loadFails : Option Int → Nat
+  | some n => if 0 ≤ n ∧ n ≤ u32Max then n.toNat else 0
+  | none => 0
+
 /-- `Context::load`. -/
 def loadCtx (st : Store) : Ctx :=
   let lut := (st.getTime kLastUpdateTime).map Time.PCT.wall
-  let poll := match st.getInt kPoll with
-    | some t => if 0 ≤ t ∧ t ≤ u64Max then some (t.toNat * 1000) else none
-    | none => none
-  let fails := match st.getInt kFailedChecks with
-    | some n => if 0 ≤ n ∧ n ≤ u32Max then n.toNat else 0
-    | none => 0
+  let poll := loadPoll (st.getInt kPoll)
+  let fails := loadFails (st.getInt kFailedChecks)
   { sched := { lastUpdate := lut, lastCheck := lut, next := none },
     st := { poll := poll, failures := fails, proxied := 0 } }
 
@@ -244,36 +250,46 @@ structure ReqFail where
   err : ReqErr
   user : Bool := false
 
+/-- The header-processing step: a changed poll interval is stored in the context, announced and
+committed at once. -/
+def applyPoll (poll : Option Nat) (w : World) : World :=
+  if w.ctx.st.poll ≠ poll then
+    let w := { w with ctx := { w.ctx with st := { w.ctx.st with poll := poll } } }
+    let w := yieldEv (.protocol w.ctx.st) w
+    storeOp_ .commit (persistCtx w)
+  else w
+
+/-- Put the request on the wire: draw the nonce (with CUP), take the environment's outcome, log
+the exchange. -/
+def sendRequest (kind : ReqKind) (b : Request.Builder) (w : World) : HttpOutcome × World :=
+  let nonce := if w.cup.isSome then some w.nNonce else none
+  let w := if w.cup.isSome then { w with nNonce := w.nNonce + 1 } else w
+  let (outcome, w) := popHttp kind w
+  let req : WireReq := { kind := kind, source := b.params.source,
+                         sessionDraw := b.sessionId.map Der.beNat, requestDraw := b.requestId.map Der.beNat,
+                         nonceDraw := nonce, apps := wireApps b }
+  (outcome, emit (.http req outcome) w)
+
+/-- What the state machine does with the outcome of an exchange: verification first, then the
+poll-interval header, then the status. -/
+def handleOutcome (outcome : HttpOutcome) (w : World) : Except ReqFail Bytes × World :=
+  match outcome with
+  | .fail k dt => (.error ⟨.transport, k == .user⟩, tick dt w)
+  | .response status retryAfter body authentic dt =>
+    let w := tick dt w
+    if w.cup.isSome ∧ !authentic then (.error ⟨.cupValidation, false⟩, w)
+    else
+      let w := applyPoll (parseRetryAfter retryAfter) w
+      if 200 ≤ status ∧ status < 300 then (.ok body, w)
+      else (.error ⟨.status, false⟩, w)
+
 /-- `do_omaha_request_and_update_context`. -/
 def omahaRequest (kind : ReqKind) (b : Request.Builder) (w : World) : Except ReqFail Bytes × World :=
   match buildError w b with
-  | some .cupDecoration => (.error ⟨.cupDecoration, false⟩, emit (.buildError kind .cupDecoration) w)
-  | some e =>
-    -- with CUP the nonce has been drawn by `decorate_request` before the header failure
-    let w := if w.cup.isSome then { w with nNonce := w.nNonce + 1 } else w
-    (.error ⟨e, false⟩, emit (.buildError kind .http) w)
+  | some e => (.error ⟨e, false⟩, emit (.buildError kind (if e = .cupDecoration then .cupDecoration else .http)) w)
   | none =>
-    let (nonce, w) := if w.cup.isSome then (some w.nNonce, { w with nNonce := w.nNonce + 1 }) else (none, w)
-    let (outcome, w) := popHttp kind w
-    let req : WireReq := { kind := kind, source := b.params.source,
-                           sessionDraw := b.sessionId.map Der.beNat, requestDraw := b.requestId.map Der.beNat,
-                           nonceDraw := nonce, apps := wireApps b }
-    let w := emit (.http req outcome) w
-    match outcome with
-    | .fail k dt => (.error ⟨.transport, k == .user⟩, tick dt w)
-    | .response status retryAfter body authentic dt =>
-      let w := tick dt w
-      if w.cup.isSome ∧ !authentic then (.error ⟨.cupValidation, false⟩, w)
-      else
-        let poll := parseRetryAfter retryAfter
-        let w :=
-          if w.ctx.st.poll ≠ poll then
-            let w := { w with ctx := { w.ctx with st := { w.ctx.st with poll := poll } } }
-            let w := yieldEv (.protocol w.ctx.st) w
-            storeOp_ .commit (persistCtx w)
-          else w
-        if 200 ≤ status ∧ status < 300 then (.ok body, w)
-        else (.error ⟨.status, false⟩, w)
+    let (outcome, w) := sendRequest kind b w
+    handleOutcome outcome w
 
 /-- GUID draws are carried through the builder as big-endian bytes of the draw index. -/
 def guidBytes (n : Nat) : Bytes := [UInt8.ofNat (n / 16777216), UInt8.ofNat (n / 65536 % 256), UInt8.ofNat (n / 256 % 256), UInt8.ofNat (n % 256)]
